@@ -172,6 +172,7 @@ public:
                 int capCls; size_t cap = pickCapacity(o, needed, capCls, version, v->banks_count_melodic, v->banks_count_percussion);
                 ExactBuf dst(cap);
                 int rc = WOPN_SaveBankToMem(v, dst.p, cap, (uint16_t)reqVersion, 0);
+                run.log.add((uint64_t)(int64_t)rc); run.log.add(cap); run.log.add(needed); if(rc == 0) { Hasher ih; ih.addBytes(dst.p, cap < needed ? cap : needed); run.log.add(ih.h); }
                 Hasher st; st.add((uint64_t)o.kind); st.add(version); st.add((uint64_t)(v->banks_count_melodic + v->banks_count_percussion > 6 ? 2 : (v->banks_count_melodic + v->banks_count_percussion > 2))); st.add((uint64_t)capCls); st.add((uint64_t)(rc != 0)); st.add((uint64_t)o.a[3]);
                 run.state(st.h);
                 if(cap < mine)
@@ -262,6 +263,7 @@ public:
                 int capCls; size_t cap = pickCapacity(o, needed, capCls);
                 ExactBuf dst(cap);
                 int rc = WOPN_SaveInstToMem(&v, dst.p, cap, (uint16_t)reqVersion);
+                run.log.add((uint64_t)(int64_t)rc); run.log.add(cap); run.log.add(needed); if(rc == 0) { Hasher ih; ih.addBytes(dst.p, cap < needed ? cap : needed); run.log.add(ih.h); }
                 Hasher st; st.add(9u); st.add(version); st.add((uint64_t)capCls); st.add((uint64_t)(rc != 0)); run.state(st.h);
                 if(cap < mine) { if(rc == 0) { run.fail("too-small-destination-accepted", vName(o.kind), "capacity " + std::to_string(cap) + " < true length " + std::to_string(mine)); break; } run.count("cap.too_small_refused"); continue; }
                 if(cap < needed) { if(rc != 0) continue; needed = cap; }
